@@ -168,6 +168,18 @@ void partialPaletteCase(Ctx& ctx, uint32_t h, std::size_t n, bool viaStandardBit
 	if (o.cls != 'R') { ctx.count("partial-palette/save-refused"); return; }
 	ctx.count("partial-palette/saved");
 	auto bytes = drain(w);
+	{
+		// determined by the picture alone: the same object saved again after a picture whose 256 colours are all bright
+		ref::RPicture brightPic = makePicture(32, 0, 1);
+		for (std::size_t i = 0; i < 256; ++i) brightPic.palette[i] = ref::RColor{ uint8_t(200 + i % 50), uint8_t(255 - i % 40), uint8_t(180 + i % 70), 0 };
+		BitmapFile bright = toBitmap(brightPic, true);
+		Stream::DynamicMemoryWriter w1, w2;
+		auto o2 = mc::guarded([&] { Tileset::WriteCustomTileset(w1, bright); Tileset::WriteCustomTileset(w2, src); });
+		ctx.transition(2);
+		if (o2.cls != 'R') { ctx.violation("C09/partial-palette/second-save-refused", key, o2.what); return; }
+		if (drain(w2) != bytes) { ctx.violation("C09/partial-palette/bytes-depend-on-what-was-saved-before", key, "the same picture saved before and after a picture with 256 bright colours gave different bytes"); return; }
+		ctx.count("partial-palette/saved-again-after-another-picture");
+	}
 	auto expect = ref::encodeCustomTileset(padded);
 	if (bytes.size() != expect.size()) { ctx.violation("C09/partial-palette/custom-file-malformed", key, "wrote " + std::to_string(bytes.size()) + " bytes; the format's sections (1024-byte palette) need " + std::to_string(expect.size())); return; }
 	// the first n colours and everything outside the palette must match the format description; padding entries are not judged
